@@ -23,7 +23,7 @@ Proof.
 Qed.
 
 (* with mark 0 the watch of UnwindMain.v only reports user-defined immediate words *)
-Lemma bad_word_0 pr s name : bad_word pr 0 s name = false ->
+Lemma bad_word_0 fo pr rf s name : bad_word fo pr rf 0 s name = false ->
   forall x len, dict_entry s name <> Some (DFun true (FInterp x) len).
 Proof.
   unfold bad_word. intros H x len E. rewrite E in H. discriminate.
@@ -43,12 +43,12 @@ Section SimLoop.
   Local Notation rel_st := (rel_st tE dlC base0).
 
   Lemma build_word_rel f name t md dl n' : okc t md dl n' -> quiet t ->
-    bad_word pr 0 t name = false ->
+    bad_word fo pr rf 0 t name = false ->
     rres (build_word fo pr rf f name t) (build_word fo pr rf f name (wc t md dl n')).
   Proof.
     intros Ho Q BW. unfold build_word. rewrite !bind_get.
     change (dict_entry (wc t md dl n') name) with (dict_entry t name).
-    pose proof (bad_word_0 pr t name BW) as NB.
+    pose proof (bad_word_0 fo pr rf t name BW) as NB. unfold bad_word in BW.
     destruct (dict_entry t name) as [[c|a|imm fr len]|];
       try (apply (rp_code_emit tE dlC base0 HtE); exact Ho);
       try (unfold fail; cbn [UnwindSimBuild.rres]; repeat split; apply rel_st_intro; exact Ho).
@@ -112,7 +112,7 @@ Section SimLoop.
     - (* a word *)
       rewrite !bind_get. change (top_function_flow (wc t1 md1 dl1 n1)) with (top_function_flow t1).
       cbv zeta in CB.
-      assert (W : (bad_word pr 0 t1 name ||
+      assert (W : (bad_word fo pr rf 0 t1 name ||
                    match build_word fo pr rf f name t1 with ROk _ s2 => calls_bad fo pr rf 0 f depth s2 | _ => false end) = false ->
                   rres ((build_word fo pr rf f name;; build1 fo pr rf f depth) t1)
                        ((build_word fo pr rf f name;; build1 fo pr rf f depth) (wc t1 md1 dl1 n1))).
